@@ -13,6 +13,65 @@ func init() {
 	vRegister("VerifC09EscapeBackticks", VerifC09EscapeBackticks)
 	vRegister("VerifC09PadComment", VerifC09PadComment)
 	vRegister("VerifC09BlockComment", VerifC09BlockComment)
+	vRegister("VerifC09PrintTags", VerifC09PrintTags)
+	vRegister("VerifC10RawSpecUTF8", VerifC10RawSpecUTF8)
+}
+
+// free text over the characters that matter to Go literals
+func vTagText(name string) string {
+	s := vBytes(name, vParam("taglen"))
+	for i := 0; i < len(s); i++ {
+		c := s[i]
+		vAssume(vOr(vOr(c == '`', c == '"'), vOr(vOr(c == '\\', c == 'a'), vOr(c == ' ', c == '\n'))))
+	}
+	return s
+}
+
+// C09: the struct tag rendered for a field is ONE Go string literal whatever the description/example text
+func VerifC09PrintTags() {
+	g := GenSchema{}
+	g.OriginalName = "n"
+	g.Description = vTagText("description")
+	order := vChoice("order", 3)
+	switch order {
+	case 0:
+		g.StructTags = []string{"description"}
+	case 1:
+		g.StructTags = []string{"description", "yaml"}
+	default:
+		g.StructTags = []string{"yaml", "description"}
+	}
+	if vBool2("withExample") {
+		g.Example = vTagText("example")
+		g.StructTags = append([]string{"example"}, g.StructTags...)
+	}
+	out := g.PrintTags()
+	val, ok := vEvalGoStringExpr(out)
+	vCrossCheckEval(out, val, ok)
+	vCover("evaluated")
+	vObserve("ok", ok)
+	vAssert(ok, "the rendered struct tag is not a single Go string literal: free text escapes into code")
+}
+
+// C10 with multi-byte characters next to back-quotes
+func VerifC10RawSpecUTF8() {
+	pieces := []string{"a", "`", "é", "世", "\n"}
+	n := vParam("pieces")
+	b := ""
+	for i := 0; i < n; i++ {
+		k := vChoice("piece", len(pieces)+1)
+		if k == len(pieces) {
+			break
+		}
+		b += pieces[k]
+	}
+	out := generateReadableSpec([]byte(b))
+	expr := "`" + out + "`"
+	val, ok := vEvalGoStringExpr(expr)
+	vCrossCheckEval(expr, val, ok)
+	vCover("evaluated")
+	vAssert(ok, "the embedded spec literal is not a valid Go string expression")
+	vAssert(val == b, "the embedded spec literal evaluates to a different document (non-ASCII text next to a back-quote)")
 }
 
 // vEvalGoStringExpr is a small reference evaluator for Go expressions made of raw (`...`)
@@ -61,7 +120,17 @@ func vEvalGoStringExpr(e string) (string, bool) {
 						i += 2
 						continue
 					}
-					return "", false // other escapes are never produced by the helpers
+					if d == 'n' {
+						val += "\n"
+						i += 2
+						continue
+					}
+					if d == 't' {
+						val += "\t"
+						i += 2
+						continue
+					}
+					return "", false // other escapes are never produced for the alphabets used here
 				}
 				val += string([]byte{c})
 				i++
